@@ -30,6 +30,7 @@
 
 from typing import Tuple, Optional, Dict
 
+from deep import logging
 from deep.api.tracepoint import Variable, VariableId
 from deep.processor.bfs import ParentNode, Node, NodeValue, breadth_first_search
 from deep.processor.variable_processor import process_variable, \
@@ -177,7 +178,13 @@ class VariableSetProcessor(Collector):
         # some variables do not want the children processed (e.g. strings)
         if process_result.process_children:
             # process children and add to node
-            child_nodes = process_child_nodes(self, var_id.vid, node_value.value, node.depth)
+            try:
+                child_nodes = process_child_nodes(self, var_id.vid, node_value.value, node.depth)
+            except Exception:
+                # the value misbehaves when inspected (e.g. raising __getattr__/__iter__/__len__), keep the
+                # variable itself and simply do not expand it - all other variables are unaffected
+                logging.exception("Cannot collect children of variable %s", node_value.name)
+                child_nodes = []
             node.add_children(child_nodes)
         return True
 
